@@ -602,3 +602,158 @@ def bool_edge(fn, bi_call):
             continue
         return None
     return None
+
+
+# ---------------------------------------------------------------------------
+# value provenance (backward, field-insensitive, through pass-through calls)
+
+PROV_THROUGH = re.compile(
+    r"(ops::Try>::branch$|::with_context$|::context$|::deref$|::deref_mut$|::clone$|::to_owned$|::as_ref$|"
+    r"::as_str$|::as_path$|::as_slice$|::as_bytes$|::borrow$|::into$|::into_bytes$|::into_boxed_str$|"
+    r"::unwrap$|::expect$|::to_path_buf$|::to_string$|::into_iter$|::iter$|::as_mut$|::as_deref$|"
+    r"::to_vec$|::map_err$|Arc::<.*>::new$|::sync::Arc.*::new$|::boxed::Box.*::new$|::Arc::as_ref$|"
+    r"::path$|::cloned$|::copied$|::unwrap_or_default$)")
+
+
+def const_repr(o):
+    for k in ("s", "variant", "v", "static", "fn"):
+        if k in o:
+            return f"{k}:{o[k]}"
+    return f"pp:{o.get('pp')}"
+
+
+def provenance(fn, x, through=PROV_THROUGH, into_aggs=True):
+    """roots of the value in operand/local `x`:
+       ('arg', n) ('upvar', name) ('call', callee, bi) ('const', repr) ('agg', name, bi) ('op', op, bi)"""
+    roots = set()
+    seen = set()
+
+    def visit_local(l):
+        if l in seen:
+            return
+        seen.add(l)
+        ds = fn.defs().get(l, [])
+        if 1 <= l <= fn.argc:
+            roots.add(("arg", l))
+        for bi, si, s in ds:
+            if si == "term":
+                c = callee(s)
+                if through is not None and through.search(c) and s["args"]:
+                    visit_operand(s["args"][0])
+                else:
+                    roots.add(("call", c, bi))
+            else:
+                rv = s["rv"]
+                k = rv["k"]
+                if k in ("use", "cast", "repeat"):
+                    visit_operand(rv["o"])
+                elif k in ("ref", "rawptr", "discr"):
+                    visit_place(rv["p"])
+                elif k == "agg":
+                    if "adt" in rv:
+                        nm = f"{rv['adt']}::{rv['variant']}"
+                    elif "closure" in rv:
+                        nm = f"closure {rv['closure']}"
+                    else:
+                        nm = "tuple" if "tuple" in rv else "array"
+                    roots.add(("agg", nm, bi))
+                    if into_aggs:
+                        for o in rv["ops"]:
+                            visit_operand(o)
+                elif k in ("binop", "unop"):
+                    roots.add(("op", rv["op"], bi))
+                    visit_operand(rv["a"])
+                    if "b" in rv:
+                        visit_operand(rv["b"])
+                else:
+                    roots.add(("other", k, bi))
+
+    def visit_place(p):
+        if fn.kind == "Closure" and p["l"] == 1:
+            fields = [e["f"] for e in p.get("p", []) if isinstance(e, dict) and "f" in e]
+            if fields:
+                roots.add(("upvar", fields[0]))
+                return
+        visit_local(p["l"])
+
+    def visit_operand(o):
+        if o is None:
+            return
+        if is_const(o):
+            roots.add(("const", const_repr(o)))
+        else:
+            visit_place(op_place(o))
+
+    if isinstance(x, int):
+        visit_local(x)
+    elif isinstance(x, dict) and ("cp" in x or "mv" in x or x.get("c") == 1):
+        visit_operand(x)
+    elif isinstance(x, dict) and "l" in x:
+        visit_place(x)
+    return roots
+
+
+def prov_calls(roots):
+    return {r[1] for r in roots if r[0] == "call"}
+
+
+def upvar_index(fn, name_or_idx):
+    """closure upvar field -> index (fields are printed as indices)."""
+    try:
+        return int(name_or_idx)
+    except (TypeError, ValueError):
+        return None
+
+
+def guarded_by_variant(fn, bi, enum_suffix, variant, only=True):
+    """Is block `bi` executed only when a value of enum `enum_suffix` is `variant`?
+    Recognises `match`/`if let` (the variant's switch target dominates bi) and `matches!`
+    (a bool set to true only under the variant's target, then switched on; true edge dominates bi).
+    `only`: the variant target must be specific to that variant (no or-pattern with others)."""
+    doms = fn.dominators().get(bi, ())
+    for sb in doms:
+        si = switch_info(fn, sb)
+        if si and si["enum"].endswith(enum_suffix) and not si.get("unknown_adt"):
+            tb = si["targets"].get(variant)
+            if tb is None:
+                continue
+            shared = [v for v, b in si["targets"].items() if b == tb and v != variant]
+            if only and (shared or tb == si["otherwise"]):
+                continue
+            if fn.dominates(tb, bi) and tb != sb:
+                return True
+    # matches! shape
+    for sb in doms:
+        t = fn.blocks[sb]["term"]
+        if t["k"] != "switch" or t["ty"] != "bool":
+            continue
+        l = op_local(t["on"])
+        if l is None or op_place(t["on"]).get("p"):
+            continue
+        tr = t["otherwise"]
+        if not (fn.dominates(tr, bi) and tr != sb):
+            continue
+        fl = [b for v, b in t["targets"] if v == 0]
+        if fl and fl[0] == tr:
+            continue
+        ds = fn.defs().get(l, [])
+        if not ds:
+            continue
+        ok = True
+        saw_true = False
+        for dbi, dsi, s in ds:
+            if dsi == "term" or s["rv"]["k"] != "use" or not is_const(s["rv"]["o"]):
+                ok = False
+                break
+            val = s["rv"]["o"].get("v")
+            if val is True:
+                saw_true = True
+                if not guarded_by_variant(fn, dbi, enum_suffix, variant, only):
+                    ok = False
+                    break
+            elif val is not False:
+                ok = False
+                break
+        if ok and saw_true:
+            return True
+    return False
